@@ -1197,4 +1197,193 @@ Section Main.
     - destruct (find_field_name md nm) as [fd|] eqn:Hff; [apply (Hcase fd eq_refl)|].
       unfold refines. cbn [expected_gout]. right. left. reflexivity.
   Qed.
+
+  (* what [after] does with a found element (list element, map value): the cursor is ON its tag *)
+  Lemma after_elem p' buf preP n' x restP t lbl' num' numX start :
+    (p' <> [] -> P_msg p') -> path_okb p' = true ->
+    wf_fld S LSingular t x = true -> 1 <= n' <= MAX_FIELD_NUMBER ->
+    desc_packed lbl' t = false -> (lbl' = LSingular \/ exists q, lbl' = LRepeated q) ->
+    buf = preP ++ wenc_field (n', sval x) ++ restP -> plen buf < 9223372036854775808 ->
+    refines (plookup S LSingular t numX x p')
+            (after_f S p' buf (SFound start (plen preP)) lbl' t num' (kind_of_type t)).
+  Proof.
+    intros IH Hp Hwf Hn Hdp Hlbl Eb Hlen. destruct (wf_singular_facts _ _ _ Hwf) as [Hw [Hwt [Htt Ee]]].
+    assert (Hf : wf_wfield (n', sval x) = true).
+    { unfold wf_wfield. cbn [fst snd]. rewrite Hw. unfold MAX_FIELD_NUMBER in *.
+      destruct (Z.leb_spec 1 n'); [|lia]. destruct (Z.leb_spec n' 536870911); [|lia]. reflexivity. }
+    unfold after_f. destruct p' as [|s' p''].
+    - cbn [is_nil plookup]. unfold refines. cbn [expected_gout node_type node_raw]. left. subst buf.
+      rewrite (gf_record preP n' (sval x) restP lbl' t num' _ start Hf Hdp (eq_sym Hwt) Htt). rewrite Ee. f_equal.
+      destruct x; cbn [wf_fld] in Hwf; try discriminate; reflexivity.
+    - cbn [is_nil]. destruct (record_skip preP (n', sval x) restP Hf) as [Hc _]. cbn [fst snd] in Hc.
+      rewrite Eb at 1. rewrite Hc.
+      destruct x as [k v|k b|fs| |]; cbn [wf_fld] in Hwf; try discriminate;
+        try (unfold refines; cbn [plookup expected_gout]; exact I).
+      destruct t as [|name]; [discriminate|].
+      apply (IH ltac:(discriminate) false buf _ lbl' num' name fs ((preP ++ tagb n' 2) ++ varint_enc (plen (encode_msg fs))) numX Hp Hlbl);
+        [exact Hwf| |exact Hlen].
+      cbn [sval wt_of_wval].
+      assert (Eb2 : buf = (preP ++ tagb n' 2) ++ (varint_enc (plen (encode_msg fs)) ++ encode_msg fs) ++ restP).
+      { rewrite Eb, wenc_field_tagb. cbn [fst snd sval wt_of_wval wenc_val]. repeat rewrite <- app_assoc. reflexivity. }
+      rewrite <- plen_app. rewrite Eb2 in Hlen |- *. apply msg_entry_nested. exact Hlen.
+  Qed.
+
+  (* ---- a singular field: only a message can be descended into *)
+  Lemma P_val_singular p buf pre t num v w0 ws w2 :
+    P_msg p -> p <> [] -> path_okb p = true ->
+    wf_fld S LSingular t v = true -> 1 <= num <= MAX_FIELD_NUMBER ->
+    fvals v = w0 :: ws -> buf = pre ++ wenc (wfld num v) ++ wenc w2 -> plen buf < 9223372036854775808 ->
+    refines (plookup S LSingular t num v p)
+            (gbp_loop all_fixes S buf p (plen pre + plen (tagb num (wt_of_wval w0))) false LSingular t num).
+  Proof.
+    intros HM Hne Hp Hwf Hn Ef Eb Hlen. destruct p as [|s p']; [contradiction|].
+    destruct v as [k x|k b|fs| |]; cbn [wf_fld] in Hwf; try discriminate;
+      try (unfold refines; cbn [plookup expected_gout]; exact I).
+    destruct t as [|name]; [discriminate|].
+    cbn [fvals sval] in Ef. inversion Ef; subst w0 ws. cbn [wt_of_wval].
+    rewrite (wfld_single S (TMsg name) (VMsg fs) num Hwf) in Eb. cbn [sval wenc flat_map] in Eb. rewrite app_nil_r in Eb.
+    assert (Eb2 : buf = (pre ++ tagb num 2) ++ (varint_enc (plen (encode_msg fs)) ++ encode_msg fs) ++ wenc w2).
+    { rewrite Eb, wenc_field_tagb. cbn [fst snd wt_of_wval wenc_val]. repeat rewrite <- app_assoc. reflexivity. }
+    apply (HM false buf _ LSingular num name fs ((pre ++ tagb num 2) ++ varint_enc (plen (encode_msg fs))) num Hp (or_introl eq_refl));
+      [exact Hwf| |exact Hlen].
+    rewrite <- plen_app. rewrite Eb2 in Hlen |- *. apply msg_entry_nested. exact Hlen.
+  Qed.
+
+  Lemma penc_app k a b : penc k (a ++ b) = penc k a ++ penc k b.
+  Proof. unfold penc. apply flat_map_app. Qed.
+
+  Lemma nth_split_z {A} (l : list A) i x : 0 <= i -> nth_error l (Z.to_nat i) = Some x ->
+    exists l1 l2, l = l1 ++ x :: l2 /\ i = plen l1.
+  Proof.
+    intros Hi H. destruct (nth_error_split l (Z.to_nat i) H) as [l1 [l2 [E Hl]]]. exists l1, l2. split; [exact E|].
+    unfold plen. rewrite Hl. rewrite Z2Nat.id by lia. reflexivity.
+  Qed.
+
+  Lemma nth_none_z {A} (l : list A) i : 0 <= i -> nth_error l (Z.to_nat i) = None -> plen l <= i.
+  Proof. intros Hi H. apply nth_error_None in H. unfold plen. lia. Qed.
+
+  (* ---- a repeated field: index steps *)
+  Lemma P_val_list s p' buf pre q0 t num v w0 ws w2 :
+    (p' <> [] -> P_msg p') -> path_okb (s :: p') = true ->
+    wf_fld S (LRepeated q0) t v = true -> 1 <= num <= MAX_FIELD_NUMBER ->
+    fvals v = w0 :: ws -> inert num w2 -> buf = pre ++ wenc (wfld num v) ++ wenc w2 -> plen buf < 9223372036854775808 ->
+    refines (plookup S (LRepeated q0) t num v (s :: p'))
+            (gbp_loop all_fixes S buf (s :: p') (plen pre + plen (tagb num (wt_of_wval w0))) false (LRepeated q0) t num).
+  Proof.
+    intros IH Hp Hwf Hn Ef Hin Eb Hlen. destruct (path_okb_tail _ _ Hp) as [_ Hp'].
+    destruct v as [| | |q vs|]; try (cbn [wf_fld] in Hwf; discriminate).
+    destruct s as [| |i| |]; try (unfold refines; cbn [plookup expected_gout]; exact I).
+    rewrite gbp_index_unfold. cbn [plookup].
+    destruct (wf_list_facts _ _ _ _ _ num Hwf) as [Hq [Hne [Hall Hcase]]].
+    assert (Hdp : desc_packed (LRepeated q0) t = q) by (unfold desc_packed; symmetry; exact Hq).
+    unfold search_index. change (f701 all_fixes) with true. change (f702 all_fixes) with true. cbn [andb].
+    destruct (Z.ltb_spec i 0) as [Hi|Hi].
+    { unfold after_f, refines. cbn [expected_gout]. left. reflexivity. }
+    rewrite Hdp. destruct q.
+    - (* packed *)
+      destruct Hcase as [k [xs [-> [Hk [-> [Hxs [Ew Hl]]]]]]]. cbn [fvals] in Ef. inversion Ef; subst w0 ws. cbn [wt_of_wval].
+      rewrite Ew in Eb. cbn [wenc flat_map] in Eb. rewrite app_nil_r in Eb.
+      set (tg := tagb num 2) in *. set (lenb := varint_enc (plen (penc k xs))).
+      assert (Eb2 : buf = (pre ++ tg) ++ lenb ++ (penc k xs ++ wenc w2)).
+      { rewrite Eb, wenc_field_tagb. cbn [fst snd wt_of_wval wenc_val]. fold tg lenb. repeat rewrite <- app_assoc. reflexivity. }
+      assert (Eb3 : buf = ((pre ++ tg) ++ lenb) ++ penc k xs ++ wenc w2) by (rewrite Eb2; repeat rewrite <- app_assoc; reflexivity).
+      pose proof (plen_nonneg (penc k xs)) as Hp0.
+      assert (Hpl : plen (penc k xs) <= plen buf).
+      { rewrite Eb3, !plen_app. pose proof (plen_nonneg pre). pose proof (plen_nonneg tg). pose proof (plen_nonneg lenb). pose proof (plen_nonneg (wenc w2)). lia. }
+      rewrite <- plen_app. unfold aread_length.
+      assert (Hcv : cvar buf (plen (pre ++ tg)) = Some (plen (penc k xs), plen lenb)).
+      { rewrite Eb2. unfold lenb. apply cvar_enc. change (2 ^ 64) with 18446744073709551616. lia. }
+      rewrite Hcv. rewrite to_s64_small by lia. rewrite <- plen_app.
+      assert (Hxl : (length xs <= length buf)%nat).
+      { rewrite Eb3, !app_length. pose proof (flat_map_length_ge (fun x => wenc_val (scalar_to_wire k x)) xs (fun x => scalar_enc_cons k x)). unfold penc. lia. }
+      unfold elem_wt. cbn [kind_of_type]. rewrite nth_error_map.
+      destruct (nth_error xs (Z.to_nat i)) as [x|] eqn:En; cbn [option_map].
+      + destruct (nth_split_z _ _ _ Hi En) as [xs1 [xs2 [-> Ei]]].
+        assert (Hx1 : (length xs1 <= length buf)%nat) by (rewrite app_length in Hxl; lia).
+        match goal with |- context [search_index_packed ?f ?fx ?b ?r ?l ?i' ?e ?c] => set (SR := search_index_packed f fx b r l i' e c) end.
+        assert (Hsr : SR = SFound (plen (((pre ++ tg) ++ lenb) ++ penc k xs1)) (plen (((pre ++ tg) ++ lenb) ++ penc k xs1))).
+        { unfold SR. replace (Datatypes.S (length buf)) with (length xs1 + Datatypes.S (length buf - length xs1))%nat by lia.
+          generalize (length buf - length xs1)%nat. intros fuel. rewrite Eb3.
+          rewrite (sip_found k xs1 ((pre ++ tg) ++ lenb) x xs2 (wenc w2) fuel i 0 _ Hk Hxs eq_refl) by lia.
+          rewrite <- plen_app. reflexivity. }
+        rewrite Hsr. clear Hsr SR.
+        destruct p' as [|s' p'']; [|unfold refines; cbn [plookup expected_gout]; exact I].
+        unfold after_f. cbn [is_nil plookup]. unfold refines. cbn [expected_gout node_type node_raw kind_of_type]. left.
+        assert (Hx : scalar_okb k x = true) by (rewrite Forall_forall in Hxs; apply Hxs; apply in_or_app; right; left; reflexivity).
+        destruct (scalar_rt k x Hk Hx) as [_ [Hwx Hwtx]].
+        assert (Eb4 : buf = (((pre ++ tg) ++ lenb) ++ penc k xs1) ++ wenc_val (scalar_to_wire k x) ++ (penc k xs2 ++ wenc w2)).
+        { rewrite Eb3, penc_app, penc_cons. repeat rewrite <- app_assoc. reflexivity. }
+        rewrite Eb4.
+        rewrite (gf_packed_elem _ (scalar_to_wire k x) _ (LRepeated q0) (TScalar k) num k Hwx Hdp (eq_sym Hwtx) (kind_small_numeric _ Hk)).
+        reflexivity.
+      + pose proof (nth_none_z _ _ Hi En) as Hge.
+        match goal with |- context [search_index_packed ?f ?fx ?b ?r ?l ?i' ?e ?c] => set (SR := search_index_packed f fx b r l i' e c) end.
+        assert (Hsr : SR = SNotFound).
+        { unfold SR. replace (Datatypes.S (length buf)) with (length xs + Datatypes.S (length buf - length xs))%nat by lia.
+          generalize (length buf - length xs)%nat. intros fuel. rewrite Eb3.
+          apply (sip_notfound k xs ((pre ++ tg) ++ lenb) (wenc w2) fuel i 0 _ Hk Hxs eq_refl). lia. }
+        rewrite Hsr. clear Hsr SR.
+        unfold after_f, refines. cbn [expected_gout]. left. reflexivity.
+    - (* one record per element *)
+      cbn [fvals] in Ef. destruct vs as [|x0 vs']; [contradiction|]. cbn [map] in Ef. inversion Ef; subst w0 ws. clear Ef.
+      rewrite Hcase in Eb. cbn [map] in Eb.
+      assert (Hx0 : wf_fld S LSingular t x0 = true) by (inversion Hall; assumption).
+      assert (Hall' : Forall (fun x => wf_fld S LSingular t x = true) vs') by (inversion Hall; assumption).
+      destruct (wf_singular_facts _ _ _ Hx0) as [Hw0 [Hwt0 _]].
+      assert (Hwts : forall l, Forall (fun x => wf_fld S LSingular t x = true) l -> Forall (fun u => wt_of_wval u = elem_wt t) (map sval l)).
+      { intros l Hl. apply Forall_forall. intros u Hu. apply in_map_iff in Hu. destruct Hu as [x [<- Hx]].
+        rewrite Forall_forall in Hl. apply (wf_singular_facts _ _ _ (Hl x Hx)). }
+      pose proof (wfld_wire _ _ _ _ num Hwf Hn) as Hww. rewrite Hcase in Hww. cbn [map wf_wire forallb] in Hww.
+      apply andb_true_iff in Hww as [Hf0 Hwws]. fold (wf_wire (map (pair num) (map sval vs'))) in Hwws.
+      set (tg := tagb num (wt_of_wval (sval x0))) in *.
+      assert (Eb1 : buf = pre ++ wenc_field (num, sval x0) ++ (wenc (map (pair num) (map sval vs')) ++ wenc w2)).
+      { rewrite Eb, wenc_cons. repeat rewrite <- app_assoc. reflexivity. }
+      assert (Eb2 : buf = (pre ++ tg) ++ wenc_val (sval x0) ++ wenc (map (pair num) (map sval vs')) ++ wenc w2).
+      { rewrite Eb1, wenc_field_tagb. cbn [fst snd]. fold tg. repeat rewrite <- app_assoc. reflexivity. }
+      destruct (Z.eqb_spec i 0) as [->|Hi0].
+      + (* index 0: the cursor steps back onto the tag *)
+        rewrite <- Hwt0. change (varint_enc (num * 8 + wt_of_wval (sval x0))) with tg.
+        replace (plen pre + plen tg - plen tg) with (plen pre) by lia.
+        cbn [search_index_unpacked]. rewrite Z.ltb_irrefl, andb_false_r. change (f701 all_fixes) with true. cbn [negb andb].
+        cbn [Z.to_nat nth_error].
+        apply (after_elem p' buf pre num x0 _ t (LRepeated q0) num num _ IH Hp' Hx0 Hn Hdp (or_intror (ex_intro _ q0 eq_refl)) Eb1 Hlen).
+      + assert (Hi1 : 1 <= i) by lia.
+        assert (Ej : Z.to_nat i = Datatypes.S (Z.to_nat (i - 1))) by lia. rewrite Ej. cbn [nth_error].
+        rewrite <- plen_app.
+        assert (Hvl : (length vs' <= length buf)%nat).
+        { rewrite Eb2, !app_length. pose proof (wenc_length_ge (map (pair num) (map sval vs'))). rewrite !map_length in H. lia. }
+        destruct (nth_error vs' (Z.to_nat (i - 1))) as [x|] eqn:En.
+        * assert (Hi2 : 0 <= i - 1) by lia. destruct (nth_split_z _ _ _ Hi2 En) as [vs1 [vs2 [-> Ei]]].
+          assert (Hx : wf_fld S LSingular t x = true) by (rewrite Forall_forall in Hall'; apply Hall'; apply in_or_app; right; left; reflexivity).
+          rewrite map_app in *. cbn [map] in *.
+          assert (Hv1 : (length vs1 <= length buf)%nat) by (rewrite app_length in Hvl; lia).
+          match goal with |- context [search_index_unpacked ?f ?fx ?b ?r ?i' ?e ?n0 ?c ?res ?ex] => set (SR := search_index_unpacked f fx b r i' e n0 c res ex) end.
+          assert (Hsr : SR = SFound (plen (pre ++ tg) + plen (wenc_val (sval x0)) + plen (wenc (map (pair num) (map sval vs1))) + plen (tagb num (elem_wt t)))
+                                    (plen (pre ++ tg) + plen (wenc_val (sval x0)) + plen (wenc (map (pair num) (map sval vs1))))).
+          { unfold SR.
+            replace (Datatypes.S (length buf)) with (length (map sval vs1) + Datatypes.S (Datatypes.S (length buf - length vs1 - 1)))%nat
+              by (rewrite map_length; rewrite app_length in Hvl; cbn [length] in Hvl; lia).
+            generalize (length buf - length vs1 - 1)%nat. intros fuel. rewrite Eb2.
+            apply (siu_found (map sval vs1) (pre ++ tg) (sval x0) (sval x) (map sval vs2) w2 fuel i 0 _ true num (elem_wt t) Hw0 Hwt0 Hwws);
+              [ rewrite <- (map_cons sval x vs2), <- map_app; apply Hwts; exact Hall'
+              | unfold plen; rewrite map_length; fold (plen vs1); lia]. }
+          rewrite Hsr. clear Hsr SR.
+          set (preP := (pre ++ tg) ++ wenc_val (sval x0) ++ wenc (map (pair num) (map sval vs1))).
+          assert (EbP : buf = preP ++ wenc_field (num, sval x) ++ (wenc (map (pair num) (map sval vs2)) ++ wenc w2)).
+          { rewrite Eb2. unfold preP. rewrite map_app. cbn [map]. rewrite wenc_app, wenc_cons. repeat rewrite <- app_assoc. reflexivity. }
+          replace (plen (pre ++ tg) + plen (wenc_val (sval x0)) + plen (wenc (map (pair num) (map sval vs1)))) with (plen preP)
+            by (unfold preP; rewrite !plen_app; lia).
+          apply (after_elem p' buf preP num x _ t (LRepeated q0) num num _ IH Hp' Hx Hn Hdp (or_intror (ex_intro _ q0 eq_refl)) EbP Hlen).
+        * assert (Hi2 : 0 <= i - 1) by lia. pose proof (nth_none_z _ _ Hi2 En) as Hge.
+          match goal with |- context [search_index_unpacked ?f ?fx ?b ?r ?i' ?e ?n0 ?c ?res ?ex] => set (SR := search_index_unpacked f fx b r i' e n0 c res ex) end.
+          assert (Hsr : SR = SNotFound).
+          { unfold SR.
+            replace (Datatypes.S (length buf)) with (length (map sval vs') + Datatypes.S (length buf - length vs'))%nat
+              by (rewrite map_length; lia).
+            generalize (length buf - length vs')%nat. intros fuel. rewrite Eb2.
+            apply (siu_notfound (map sval vs') (pre ++ tg) (sval x0) w2 fuel i 0 _ true num (elem_wt t) Hw0 Hwt0 Hwws (Hwts _ Hall') Hin).
+            unfold plen; rewrite map_length; fold (plen vs'); lia. }
+          rewrite Hsr. clear Hsr SR.
+          unfold after_f, refines. cbn [expected_gout]. left. reflexivity.
+  Qed.
 End Main.
